@@ -42,6 +42,7 @@ var kdcByz = []refkdc.Perturb{
 	{Kind: "enc-plain-garbage", Arg: 0}, {Kind: "enc-plain-garbage", Arg: 1}, {Kind: "enc-plain-garbage", Arg: 7}, {Kind: "enc-plain-garbage", Arg: 64}, {Kind: "enc-plain-garbage", Arg: 300},
 	{Kind: "padata-empty-info2"}, {Kind: "padata-empty-info"}, {Kind: "padata-garbage"},
 	{Kind: "edata-empty-info2"}, {Kind: "edata-empty-info"}, {Kind: "edata-empty-seq"}, {Kind: "edata-garbage"}, {Kind: "edata-absent"}, {Kind: "edata-unknown-etype"},
+	{Kind: "edata-s2k-iter", Arg: 0}, {Kind: "edata-s2k-iter", Arg: 1}, {Kind: "edata-s2k-iter", Arg: 0x7fffffff}, {Kind: "edata-s2k-iter", Arg: 0xffffffff},
 	{Kind: "enc-trunc"}, {Kind: "enc-flip"}, {Kind: "other-usage", Arg: 2}, {Kind: "enc-tag", Arg: 3}, {Kind: "msg-type", Arg: 13}, {Kind: "msg-type", Arg: 11},
 }
 
@@ -61,6 +62,18 @@ var apByz = []string{"ad-ifrelevant-empty", "ad-ifrelevant-garbage", "ad-ifrelev
 // realm at all; codes that make a client start again (24, 25, 52, 68, ...) must still end.
 const kdcErrCodes = 93
 const kdcErrSpace = kdcErrCodes * 3
+
+// kdc-plain / ap-plain: a Byzantine peer holding valid keys re-encodes the plaintext it is about to
+// seal with one element emptied / resized / duplicated / removed (mode shape, first half of the
+// space) or with one length octet corrupted (mode field, second half)
+const plainShapeN, plainSpace = 700, 2200
+
+func plainDamage(plain []byte, d int) ([]byte, string, bool) {
+	if d < plainShapeN {
+		return damage(derPoint, plain, "shape", d)
+	}
+	return damage(derPoint, plain, "field", d-plainShapeN)
+}
 
 const replyBound = 1400 // upper bound of a reply's length for the enumeration (deliveries beyond the real length are skipped)
 
@@ -87,12 +100,16 @@ func flowCases(tier string) []caseT {
 		add("kdc-byz", ex, len(kdcByz)+400, false)
 		add("kdc-liar", ex, len(kdcLiars), false)
 		add("kdc-err", ex, kdcErrSpace, false)
+		if ex != "as-err25" {
+			add("kdc-plain", ex, plainSpace, false)
+		}
 	}
 	for _, et := range []string{"18", "23", "16", "19"} {
 		add("ap-prefix", et, 1600, true)
 		add("ap-subst", et, 16000, true)
 		add("ap-field", et, 2500, true)
 		add("ap-byz", et, len(apByz)+2400, true)
+		add("ap-plain", et, 2*plainSpace, et != "18")
 	}
 	return out
 }
@@ -205,7 +222,7 @@ func runKDCFlow(tp *Tape, res *core.Result, rng *core.Rng) {
 		res.Verdict, res.Harness = "harness-error", "krb5.conf: "+err.Error()
 		return
 	}
-	space := map[string]int{"kdc-prefix": replyBound, "kdc-subst": replyBound * 10, "kdc-field": 2500, "kdc-byz": len(kdcByz) + 400, "kdc-liar": len(kdcLiars), "kdc-err": kdcErrSpace}[tp.Mode]
+	space := map[string]int{"kdc-prefix": replyBound, "kdc-subst": replyBound * 10, "kdc-field": 2500, "kdc-byz": len(kdcByz) + 400, "kdc-liar": len(kdcLiars), "kdc-err": kdcErrSpace, "kdc-plain": plainSpace}[tp.Mode]
 	if space == 0 {
 		res.Verdict, res.Harness = "invalid", "mode"
 		return
@@ -260,6 +277,18 @@ func runKDCFlow(tp *Tape, res *core.Result, rng *core.Rng) {
 				}
 				desc = fmt.Sprintf("%s(%d)", perturb[0].Kind, perturb[0].Arg)
 			}
+		case "kdc-plain":
+			perturb = []refkdc.Perturb{{Kind: "enc-plain-hook"}}
+			hook := func(kind string, plain []byte) []byte {
+				b, ds, ok := plainDamage(plain, d)
+				if !ok {
+					applied = false
+					return plain
+				}
+				desc = "sealed plaintext: " + ds
+				return b
+			}
+			sim.PlainHook, other.PlainHook = hook, hook
 		case "kdc-err":
 			code, variant := int32(d/3+1), d%3
 			errEvery = func(req []byte) []byte {
@@ -338,7 +367,7 @@ func runAPFlow(tp *Tape, res *core.Result, rng *core.Rng) {
 	service.GetReplayCache(5 * time.Minute)
 	minter := &world.Minter{Seed: tp.RunSeed, Kt: ktm}
 	pacSample := hx(testdata.MarshaledPAC_AD_WIN2K_PAC)
-	space := map[string]int{"ap-prefix": 1600, "ap-subst": 16000, "ap-field": 2500, "ap-byz": len(apByz) + 2400}[tp.Mode]
+	space := map[string]int{"ap-prefix": 1600, "ap-subst": 16000, "ap-field": 2500, "ap-byz": len(apByz) + 2400, "ap-plain": 2 * plainSpace}[tp.Mode]
 	if space == 0 {
 		res.Verdict, res.Harness = "invalid", "mode"
 		return
@@ -462,13 +491,33 @@ func runAPFlow(tp *Tape, res *core.Result, rng *core.Rng) {
 				minter.PlainHook = func(w string, plain []byte) []byte { return plain }
 			}
 		}
+		plainApplied := true
+		if tp.Mode == "ap-plain" {
+			which := []string{"tkt", "auth"}[d%2]
+			minter.PlainHook = func(w string, plain []byte) []byte {
+				if w != which {
+					return plain
+				}
+				b, ds, ok := plainDamage(plain, d/2)
+				if !ok {
+					plainApplied = false
+					return plain
+				}
+				desc = which + " plaintext: " + ds
+				return b
+			}
+		}
 		tr, err := minter.Mint(spec, s, 5*time.Minute, rng)
 		if err != nil {
 			res.Verdict, res.Harness = "harness-error", "mint: "+err.Error()
 			return
 		}
+		if !plainApplied {
+			skipped++
+			continue
+		}
 		tok := rk.NegTokenInit([][]int{rk.OIDKRB5}, rk.KRB5Token(rk.TokAPReq, tr.Bytes))
-		if tp.Mode != "ap-byz" {
+		if tp.Mode != "ap-byz" && tp.Mode != "ap-plain" {
 			b, ds, ok := damage(derPoint, tok, strings.TrimPrefix(tp.Mode, "ap-"), d)
 			if !ok {
 				skipped++
